@@ -41,20 +41,39 @@ name that covers it, for the same bucket/key/copy source. (Full strength for the
 theorem api_calls_authorized :
     ∀ r ∈ routes, r.mux = .api → ∀ c ∈ r.calls, callOk r c = true := by decide
 
-/-- **effects_authorized_partial.** On every mux: every storage call that reads object data or
-changes state is authorized as above — except the error-document read of the website endpoints
-(`isErrorDocumentRead`), for which `error_document_read_not_authorized` shows the failure. -/
-theorem effects_authorized_partial :
-    ∀ r ∈ routes, ∀ c ∈ r.calls, effectful c.method = true → isErrorDocumentRead c = false →
-      callOk r c = true := by decide
+/-- Does the tree under check contain the repair `fixes/C31-website-error-document-authz.patch`
+(the website endpoints ask the authorizer about the error document before reading it)?
+Flip to `true` when that patch is committed to /repo: the theorem below then IS the full statement. -/
+def errorDocumentRepaired : Bool := false
 
-/-- Negation witness for the full statement on the current tree: a website route reads object data
-(`GetObject` of the error document) for a key the authorizer was never asked about. -/
-theorem error_document_read_not_authorized :
-    ∃ r ∈ routes, ∃ c ∈ r.calls, readsObjectData c.method = true ∧ isErrorDocumentRead c = true ∧
-      callOk r c = false := by decide
+/-- The full statement: on every mux, every storage call that reads object data or changes state
+comes after a successful authorize call under a covering operation name, for the same bucket, key
+and copy source. -/
+def EffectsAuthorized : Prop :=
+  ∀ r ∈ routes, ∀ c ∈ r.calls, effectful c.method = true → callOk r c = true
 
-/-- Non-vacuity of `effects_authorized_partial`: the table has effectful calls that are not the
+/-- What holds on the unrepaired tree: the same with the error-document read excluded … -/
+def EffectsAuthorizedPartial : Prop :=
+  ∀ r ∈ routes, ∀ c ∈ r.calls, effectful c.method = true → isErrorDocumentRead c = false →
+    callOk r c = true
+
+/-- … together with the negation witness: a website route reads object data (`GetObject` of the
+error document) for a key the authorizer was never asked about. -/
+def ErrorDocumentReadNotAuthorized : Prop :=
+  ∃ r ∈ routes, ∃ c ∈ r.calls, readsObjectData c.method = true ∧ isErrorDocumentRead c = true ∧
+    callOk r c = false
+
+instance : Decidable EffectsAuthorized := by unfold EffectsAuthorized; infer_instance
+instance : Decidable EffectsAuthorizedPartial := by unfold EffectsAuthorizedPartial; infer_instance
+instance : Decidable ErrorDocumentReadNotAuthorized := by unfold ErrorDocumentReadNotAuthorized; infer_instance
+
+/-- **effects_authorized.** Repaired tree: the full statement. Current tree: the `_partial`
+statement and the witness that the full one fails exactly at the error-document read. -/
+theorem effects_authorized :
+    if errorDocumentRepaired then EffectsAuthorized
+    else EffectsAuthorizedPartial ∧ ErrorDocumentReadNotAuthorized := by decide
+
+/-- Non-vacuity of `EffectsAuthorizedPartial`: the table has effectful calls that are not the
 excluded one, on both muxes (mutations on the API mux, the object read on the website mux). -/
 example : (∃ r ∈ routes, r.mux = .api ∧ ∃ c ∈ r.calls, mutating c.method = true ∧ isErrorDocumentRead c = false) ∧
     (∃ r ∈ routes, r.mux = .website ∧ ∃ c ∈ r.calls, readsObjectData c.method = true ∧ isErrorDocumentRead c = false) := by
@@ -153,16 +172,33 @@ example : (groupKeys.map (fun k => (groupAtoms (groupOf k)).length)).foldl max 0
 
 /-! ### Per-item hooks on the route table -/
 
-/-- **listing_routes_consult_their_hook_partial.** Every route that lists buckets, objects,
-multipart uploads or parts, or bulk-deletes, consults the per-item hook responsible for what it
-returns — except `ListObjectVersions` (witness below). -/
-theorem listing_routes_consult_their_hook_partial :
-    ∀ r ∈ routes, ∀ c ∈ r.calls, c.method ≠ .ListObjectVersions →
-      ∀ h, itemHookOf c.method = some h → h ∈ r.itemHooks := by decide
+/-- Does the tree under check contain the repair `fixes/C31-list-object-versions-item-hook.patch`
+(`GET ?versions` filters keys and common prefixes through the listObject hook)? Flip to `true` when
+that patch is committed to /repo. -/
+def versionsHookRepaired : Bool := false
+
+/-- The full statement: every route that lists buckets, objects, object versions, multipart uploads
+or parts, or bulk-deletes, consults the per-item hook responsible for what it returns. -/
+def ListingsConsultHooks : Prop :=
+  ∀ r ∈ routes, ∀ c ∈ r.calls, ∀ h, itemHookOf c.method = some h → h ∈ r.itemHooks
+
+def ListingsConsultHooksPartial : Prop :=
+  ∀ r ∈ routes, ∀ c ∈ r.calls, c.method ≠ .ListObjectVersions →
+    ∀ h, itemHookOf c.method = some h → h ∈ r.itemHooks
 
 /-- Negation witness: the `?versions` listing returns object keys without consulting any per-item hook. -/
-theorem list_object_versions_consults_no_hook :
-    ∃ r ∈ routes, (∃ c ∈ r.calls, c.method = .ListObjectVersions) ∧ r.itemHooks = [] := by decide
+def ListObjectVersionsConsultsNoHook : Prop :=
+  ∃ r ∈ routes, (∃ c ∈ r.calls, c.method = .ListObjectVersions) ∧ r.itemHooks = []
+
+instance : Decidable ListingsConsultHooks := by unfold ListingsConsultHooks; infer_instance
+instance : Decidable ListingsConsultHooksPartial := by unfold ListingsConsultHooksPartial; infer_instance
+instance : Decidable ListObjectVersionsConsultsNoHook := by unfold ListObjectVersionsConsultsNoHook; infer_instance
+
+/-- **listings_consult_their_hook.** Repaired tree: the full statement. Current tree: everything
+but `ListObjectVersions`, and the witness for `ListObjectVersions`. -/
+theorem listings_consult_their_hook :
+    if versionsHookRepaired then ListingsConsultHooks
+    else ListingsConsultHooksPartial ∧ ListObjectVersionsConsultsNoHook := by decide
 
 /-! ## 2. The per-item filter loops (all inputs, by induction) -/
 
